@@ -73,10 +73,41 @@ pub struct FnInfo {
     pub order: usize,
 }
 
+/// length expression of an array type (`[T; LEN]`, possibly behind references)
+pub fn array_len_of(t: &syn::Type) -> Option<syn::Expr> {
+    let mut t = t;
+    while let syn::Type::Reference(r) = t {
+        t = &r.elem;
+    }
+    match t {
+        syn::Type::Array(a) => Some(a.len.clone()),
+        _ => None,
+    }
+}
+
+/// crate of a source file (first path component)
+pub fn crate_of(file: &str) -> &str {
+    file.split('/').next().unwrap_or("")
+}
+/// Key of the type `simple` as seen from `file`: types are keyed by their simple Rust name, except that a type whose
+/// simple name is already taken by a selected type of ANOTHER crate is keyed `<crate>::<name>`.
+pub fn type_key(file: &str, simple: &str, type_names: &[String]) -> String {
+    let q = format!("{}::{}", crate_of(file), simple);
+    if type_names.iter().any(|t| *t == q) {
+        q
+    } else {
+        simple.to_string()
+    }
+}
+/// simple Rust name of a type key
+pub fn simple_of(key: &str) -> &str {
+    key.rsplit("::").next().unwrap_or(key)
+}
+
 impl FnInfo {
     pub fn short_lean(&self) -> String {
         match &self.self_ty {
-            Some(t) => format!("{}.{}", t, crate::ty::lean_ident(&self.name)),
+            Some(t) => format!("{}.{}", simple_of(t), crate::ty::lean_ident(&self.name)),
             None => crate::ty::lean_ident(&self.name),
         }
     }
@@ -114,6 +145,8 @@ pub struct Globals {
     pub used: RefCell<BTreeSet<String>>,
     /// (source error type, target error type) -> key of the translated `From::from`
     pub from_impls: Vec<(String, String, (Option<String>, String))>,
+    /// declared length of array-typed fields: (type key, variant or "", field) -> length expression
+    pub array_lens: BTreeMap<(String, String, String), syn::Expr>,
     pub structs: BTreeMap<String, StructInfo>,
     pub enums: BTreeMap<String, EnumInfo>,
     pub consts: BTreeMap<String, Vec<ConstInfo>>,
@@ -227,6 +260,16 @@ impl Globals {
             self.used.borrow_mut().insert(group.to_string());
         }
     }
+    /// key of the type `simple` as seen from `file` (see `type_key`)
+    pub fn tkey(&self, file: &str, simple: &str) -> String {
+        let q = format!("{}::{}", crate_of(file), simple);
+        if self.structs.contains_key(&q) || self.enums.contains_key(&q) {
+            q
+        } else {
+            simple.to_string()
+        }
+    }
+
     pub fn take_used(&self) -> BTreeSet<String> {
         std::mem::take(&mut *self.used.borrow_mut())
     }
@@ -237,18 +280,27 @@ impl Globals {
         let mut g = Globals {
             used: RefCell::new(BTreeSet::new()),
             from_impls: Vec::new(),
+            array_lens: BTreeMap::new(),
             structs: BTreeMap::new(),
             enums: BTreeMap::new(),
             consts: BTreeMap::new(),
             fns: BTreeMap::new(),
         };
         register_builtins(&mut g);
-        // pass 1: names of translated types
+        // pass 1: names (keys) of translated types
         let mut type_names: Vec<String> = g.structs.keys().cloned().collect();
+        let mut owner: BTreeMap<String, String> = BTreeMap::new();
         for w in work {
             match &w.sel {
                 Sel::Struct(n) | Sel::Enum(n) | Sel::StructView(n, _) => {
-                    if type_names.iter().any(|t| t == n) {
+                    let krate = crate_of(&w.file).to_string();
+                    let q = format!("{}::{}", krate, n);
+                    let taken = type_names.iter().any(|t| t == n);
+                    let other_crate = owner.get(*n).map(|o| *o != krate).unwrap_or(false);
+                    if taken && other_crate && !type_names.iter().any(|t| *t == q) {
+                        // same simple name in another crate: crate-qualified key
+                        type_names.push(q);
+                    } else if taken {
                         failed.entry(w.group.clone()).or_insert(TErr {
                             file: w.file.clone(),
                             line: 0,
@@ -257,6 +309,7 @@ impl Globals {
                         });
                     } else {
                         type_names.push(n.to_string());
+                        owner.insert(n.to_string(), krate);
                     }
                 }
                 _ => {}
@@ -316,7 +369,10 @@ impl Globals {
                                             continue;
                                         }
                                     }
-                                    let ty = conv_ty(path, &f.ty, Some(&s.ident.to_string()), &type_names)?;
+                                    let ty = conv_ty(path, &f.ty, Some(&type_key(path, &s.ident.to_string(), &type_names)), &type_names)?;
+                                    if let Some(len) = array_len_of(&f.ty) {
+                                        g.array_lens.insert((type_key(path, &s.ident.to_string(), &type_names), String::new(), fname.clone()), len);
+                                    }
                                     fields.push((fname, ty));
                                 }
                                 if let Some(vf) = view_fields {
@@ -329,7 +385,7 @@ impl Globals {
                             }
                             _ => return err_at(path, s.span(), "only structs with named fields are supported"),
                         }
-                        g.structs.insert(s.ident.to_string(), StructInfo { group: group.clone(), ns: ns.clone(), name: s.ident.to_string(), fields, view });
+                        g.structs.insert(type_key(path, &s.ident.to_string(), &type_names), StructInfo { group: group.clone(), ns: ns.clone(), name: s.ident.to_string(), fields, view });
                     }
                     Found::Enum(e) => {
                         if e.generics.params.iter().any(|p| !matches!(p, syn::GenericParam::Lifetime(_))) {
@@ -345,15 +401,21 @@ impl Globals {
                                 syn::Fields::Unnamed(u) => {
                                     all_unit = false;
                                     for f in &u.unnamed {
-                                        fields.push((None, conv_ty(path, &f.ty, Some(&e.ident.to_string()), &type_names)?));
+                                        fields.push((None, conv_ty(path, &f.ty, Some(&type_key(path, &e.ident.to_string(), &type_names)), &type_names)?));
                                     }
                                 }
                                 syn::Fields::Named(nf) => {
                                     all_unit = false;
                                     for f in &nf.named {
+                                        if let Some(len) = array_len_of(&f.ty) {
+                                            g.array_lens.insert(
+                                                (type_key(path, &e.ident.to_string(), &type_names), v.ident.to_string(), f.ident.as_ref().unwrap().to_string()),
+                                                len,
+                                            );
+                                        }
                                         fields.push((
                                             Some(f.ident.as_ref().unwrap().to_string()),
-                                            conv_ty(path, &f.ty, Some(&e.ident.to_string()), &type_names)?,
+                                            conv_ty(path, &f.ty, Some(&type_key(path, &e.ident.to_string(), &type_names)), &type_names)?,
                                         ));
                                     }
                                 }
@@ -376,12 +438,12 @@ impl Globals {
                             };
                             variants.push(VariantInfo { name: v.ident.to_string(), fields, discr });
                         }
-                        g.enums.insert(e.ident.to_string(), EnumInfo { group: group.clone(), ns: ns.clone(), name: e.ident.to_string(), variants, all_unit });
+                        g.enums.insert(type_key(path, &e.ident.to_string(), &type_names), EnumInfo { group: group.clone(), ns: ns.clone(), name: e.ident.to_string(), variants, all_unit });
                     }
                     Found::Fn(sig, _, _) => {
                         let self_ty = match sel {
-                            Sel::Method(t, _) => Some(t.to_string()),
-                            Sel::From(d, _) => Some(d.to_string()),
+                            Sel::Method(t, _) => Some(type_key(path, t, &type_names)),
+                            Sel::From(d, _) => Some(type_key(path, d, &type_names)),
                             _ => None,
                         };
                         let fn_name = match sel {
@@ -441,7 +503,7 @@ impl Globals {
                             syn::ReturnType::Type(_, t) => conv_ty(path, t, self_ty.as_deref(), &type_names)?,
                         };
                         if let Sel::From(d, s) = sel {
-                            g.from_impls.push((s.to_string(), d.to_string(), (self_ty.clone(), fn_name.clone())));
+                            g.from_impls.push((type_key(path, s, &type_names), type_key(path, d, &type_names), (self_ty.clone(), fn_name.clone())));
                         }
                         g.fns.entry((self_ty.clone(), fn_name.clone())).or_default().push(FnInfo {
                             group: group.clone(),
@@ -650,6 +712,13 @@ pub fn conv_ty(file: &str, t: &syn::Type, self_ty: Option<&str>, type_names: &[S
                     let v = conv_ty(file, args[1], self_ty, type_names)?;
                     return Ok(Ty::Map(Box::new(k), Box::new(v), name == "HashMap"));
                 }
+                ("BTreeSet", 1) => {
+                    let k = conv_ty(file, args[0], self_ty, type_names)?;
+                    if !matches!(k, Ty::Int(_)) {
+                        return err_at(file, t.span(), "only sets of unsigned integers are supported");
+                    }
+                    return Ok(Ty::Set(Box::new(k)));
+                }
                 ("Range", 1) => {
                     return match conv_ty(file, args[0], self_ty, type_names)? {
                         Ty::Int(64) => Ok(Ty::Named("Range".into())),
@@ -658,6 +727,7 @@ pub fn conv_ty(file: &str, t: &syn::Type, self_ty: Option<&str>, type_names: &[S
                 }
                 _ => {}
             }
+            let name = type_key(file, &name, type_names);
             if type_names.iter().any(|n| *n == name) {
                 return Ok(Ty::Named(name));
             }
